@@ -37,8 +37,8 @@ CLAIMS["C01"] = dict(
          "one iteration of IncSolver::satisfy's merge/split loop flags a constraint only on evidence from its callees. Both copies of the solver (libvpsc and libavoid/vpsc.cpp) are covered. "
          "A bounded completeness fragment: a direct active inequality between two variables is found as the split point (no spurious 'no split point' exception). "
          "'Flagged iff infeasible' in general, finiteness and optimality are undecided residue.",
-    note=BASE_TB + "Ghost-cell composition on paper; copyResult's all-n step is bounded (n<=4) plus an unbounded body fragment; scan jobs run with --no-pointer-check "
-         "(elements other than the ghost one unconstrained); slack formula proved in scaled-integer mode (machine arithmetic treated as mathematical).",
+    note=BASE_TB + "Ghost-cell composition on paper; copyResult's all-n step is bounded (n<=4) plus an unbounded body fragment; the scan jobs state 'element i of the constraint vector is object i of a pool of distinct live constraints' through the stub vector's element hook "
+         "(instantiated at each access; pointer checks on); slack formula proved in scaled-integer mode (machine arithmetic treated as mathematical).",
     tech="CBMC code contracts + loop contracts on tail fragments of the real solver functions; ghost index/ghost cell for the universally quantified scan postcondition",
     ref="5/C01")
 
@@ -131,7 +131,7 @@ CLAIMS["C08"] = dict(
     text="PARTIAL: only two translation links of C08 are decided, by contract proofs; the statement itself (no overlap / containment in the result) is not. "
          "(1) ClusterContainmentConstraints::generateSeparationConstraints: each member entry yields, in its own dimension only, the inequality that keeps the member at least its "
          "offset inside the named cluster boundary variable, creator set, every entry visited (loop body + loop shell, any number of entries); the constructor records, for "
-         "each child cluster, the four entries that hold its boundary variables inside the parent's; ShapePair::operator< (the key order of the exemption set) is the lexicographic order. "
+         "each child cluster, the four entries that hold its boundary variables inside the parent's; ShapePair::operator< (the key order of the exemption set) is the lexicographic order; a cluster bound to a node rectangle gets the four equalities tying its boundaries to that rectangle's sides. "
          "(2) NonOverlapConstraints::generateSeparationConstraints for one pair of plain shapes: a pair overlapping in the other axis by more than 0.0005 gets exactly one separation "
          "in this axis, the shape with the smaller centre first, gap = sum of the two half sizes; otherwise nothing. "
          "NOT decided: pairs involving clusters, the pair list / exemptions, the constructor's offsets, makeFeasible's four alternatives, the descent loop (C07 residue).",
